@@ -194,6 +194,11 @@ func (fr *frame) symSprintf(format string, args []value) (value, []int) {
 		case 's', 'v', 'w':
 			res = append(res, strBytes(sv)...)
 		case 'q':
+			// %q of a string is strconv.Quote: run the real function on the symbolic text.
+			if qf := fr.i.prog.ImportedPackage("strconv"); qf != nil && qf.Func("Quote") != nil && isStr(sv) {
+				res = append(res, strBytes(call(fr.i, fr, 0, qf.Func("Quote"), []value{sv}))...)
+				break
+			}
 			res = append(res, uint8('"'))
 			for range strBytes(sv) {
 				t := fr.i.p.Fresh("opaque", 8)
